@@ -499,7 +499,9 @@ def observe_remote(status: Optional[int], content: Optional[bytes], raised: Opti
         if raised is not None:
             cls = getattr(httpx, raised, None) or {"OSError": OSError, "ValueError": ValueError}[raised]
             raise cls("simulated")
-        return httpx.Response(status, content=content)
+        # a 3xx answer points somewhere else: httpx.post must not follow it (follow_redirects is off by default)
+        headers = {"location": "http://verif.test/elsewhere"} if status is not None and 300 <= status <= 399 else None
+        return httpx.Response(status, content=content, headers=headers)
 
     with patched_httpx(handler) as rec:
         out = classify_url_outcome(lambda: S.get_graphql_schema_from_url(url))
@@ -556,7 +558,7 @@ def check_remote(ctx: Ctx, st: Optional[LeanStatus], res: Result) -> None:
     rng = ctx.sub_rng("remote")
     from . import c12  # random JSON bodies of the same shape family (data/errors members)
 
-    for _ in range(ctx.budget(300, 6000)):
+    for _ in range(ctx.budget(300, 3000)):
         status = rng.choice(STATUSES) if rng.random() < 0.2 else rng.choice([200, 200, 201, 299])
         content = c12.rand_body(rng)
         if rng.random() < 0.3:
@@ -2039,14 +2041,14 @@ def run(ctx: Ctx, st: Optional[LeanStatus]) -> Result:
     ctx.log(f"witnesses: {res.witness_status}")
     res.witness_status.setdefault("C19-F2", "reproduces" if replay_unreachable(res) else "gone")
     check_suffixes(ctx, st, res)
-    check_trees(ctx, st, res, ctx.budget(400, 6000))
+    check_trees(ctx, st, res, ctx.budget(400, 3000))
     check_remote(ctx, st, res)
-    check_sources(ctx, st, res, ctx.budget(200, 3000))
+    check_sources(ctx, st, res, ctx.budget(200, 1500))
     ctx.log(f"files/remote/settings correspondence done: {res.evaluations} evaluations, {len(res.mismatches)} mismatches")
-    check_inputs(ctx, st, res, ctx.budget(300, 6000))
-    check_split_schemas(ctx, res, ctx.budget(60, 800))
+    check_inputs(ctx, st, res, ctx.budget(300, 3000))
+    check_split_schemas(ctx, res, ctx.budget(60, 400))
     ctx.log(f"inputs correspondence + split oracle done: {res.evaluations} evaluations, {len(res.mismatches)} mismatches")
-    run_oracle(ctx, res, ctx.budget(30, 420))
+    run_oracle(ctx, res, ctx.budget(30, 240))
     res.exhaustive = False
     res.extra["introspection_table_cells"] = len(STATUSES) * len(body_table())
     res.oracle_only += [
@@ -2069,12 +2071,12 @@ def search(ctx: Ctx) -> Result:
     """after a broken proof / correspondence: judge the real code with the big budgets"""
     res = Result()
     check_remote(ctx, None, res)
-    check_sources(ctx, None, res, 3000)
+    check_sources(ctx, None, res, 1000)
     check_suffixes(ctx, None, res)
-    check_inputs(ctx, None, res, 4000)
-    check_split_schemas(ctx, res, 600)
-    run_oracle(ctx, res, 200, label="search")
-    run_oracle(ctx, res, 60, label="search-clean", focus="clean")
+    check_inputs(ctx, None, res, 1500)
+    check_split_schemas(ctx, res, 300)
+    run_oracle(ctx, res, 80, label="search")
+    run_oracle(ctx, res, 30, label="search-clean", focus="clean")
     return res
 
 
